@@ -34,8 +34,8 @@ def obligations(tier):
         f1 = [(pl, 0, [7, 10, 13]) for pl in (0, 1, 3)]
         f2 = [(pl, 0, 0) for pl in (0, 3)]
     else:
-        f1 = [(pl, kd, list(range(nw))) for pl in range(npl) for kd in range(nkd)]
-        f2 = [(pl, kd, wa) for pl in range(npl) for kd in range(nkd) for wa in (0, 7, 10)]
+        f1 = [(pl, kd, list(range(nw))) for pl in range(npl) for kd in (0, 2)]
+        f2 = [(pl, kd, 0) for pl in range(npl) for kd in (0, 2)]
     for pl, kd, was in f1:
         for wa in was:
             obs.append(Ob(id=f'policy.form1.place{pl}.kind{kd}.w{wa}', module=M, func='guarded', params='a: int, wb: int',
@@ -74,7 +74,7 @@ def run(tier, only=''):
         bounds={'atoms': na, 'wrappers': nw, 'binary forms': nbin, 'placements': npl, 'policy kinds': nkd,
                 'quick': 'form0: everything; form1: inner wrapper in {filter, shape, for} under "allow select" on Person / Admin / Person+Post; '
                          'form2: identity wrapper under "allow select" on Person / Person+Post',
-                'thorough': 'form1: all wrappers, placements and kinds; form2: three first wrappers, all placements and kinds'},
+                'thorough': 'form1: all wrappers and placements, kinds {allow select; allow + deny}; form2: identity wrapper, all placements, same kinds'},
         stubs=['std stand-in + transcribed operators / functions (see C13)', 'policy conditions are qlast trees; where the schema layer '
                're-parses their stored text, a table-driven stand-in for parser.parse_fragment returns the registered tree'],
         trusted_base=['the guard-flow analysis in vlib/harness/C07_policies.py (Flow, 120 lines)', 'CrossHair, z3'],
